@@ -1,5 +1,7 @@
 package m3
 
+// quick-tier: yes (deterministic for a given VERIF_SEED, in-memory, < 1 s)
+//
 // BOUNDED stand-in for the clauses of property C16 that no contract decides yet
 // (injected with go test -overlay): encode/decode round trip of metric batches, the
 // size calculator against the real encoder, and "maximal placeholder values give an
